@@ -269,6 +269,13 @@ class PortsWorld(World):
                                     f"{sorted(f.value for f in s.features)}")
                 if prm.get("mutate"):
                     stats.fault("caller_mutates_argument_after_construction")
+        if cls == "event.Source.Signature":
+            # the signatures of two sources that have (different) event maps attached
+            from amaranth_soc import event
+            i1, i2 = s1.create(path=("a",)), s2.create(path=("b",))
+            i1.event_map, i2.event_map = event.EventMap(), event.EventMap()
+            s1, s2 = i1.signature, i2.signature
+            stats.fault("caller_mutates_argument_after_construction")
         eq = (s1 == s2)
         want_eq = canon(cls, config["p1"]) == canon(cls, config["p2"])
         stats.checks += 2
